@@ -264,6 +264,19 @@ public:
                 if (!df.empty()) { out.fail("state-changed", base + "state-changed:" + sec, std::string("after the rejected '") + c.id + "' (" + what + "): " + df); return out; }
             }
             if (!F.fds.empty()) { out.fail("descriptor-leak", base + "descriptor-leak", "a file is left open after the rejected call"); return out; }
+            // "fully usable": the object can still be written and read back (a seeded third of the faults)
+            if (!g.empty() && r.chance(0.35)) {
+                bool bin = r.chance(0.5);
+                try {
+                    std::stringstream ss; g.write(ss, bin);
+                    TasmanianSparseGrid back; back.read(ss, bin);
+                    std::string sec; std::string df = diffObs(digest(back), digest(g), 1e-11, &sec);
+                    if (!df.empty()) { out.fail("unusable", base + "unusable:write-read-differs", std::string("after the rejected '") + c.id + "' the grid written and read back differs: " + df); return out; }
+                    st.inc("reach.round_trip_after_rejected_call");
+                } catch (std::exception &e) {
+                    out.fail("unusable", base + "unusable:write-read", std::string("after the rejected '") + c.id + "' the grid cannot be written and read back: " + e.what()); return out;
+                }
+            }
         }
         out.trace.u64(digest(g).hash()); out.trace.i(nfaults);
         out.shape = sh.h ^ mix64(shapeKey(g)); out.nontrivial = nfaults > 0;
